@@ -196,8 +196,11 @@ def standard_run(pid, judge, tags, tier, seed, drv, sources, nontrivial=None, ru
     for sc in corpus(pid):
         sc = fix_fractions(sc)
         st.check(sc, nontrivial=nontrivial, judge_extra=judge_extra(sc) if callable(judge_extra) else judge_extra, refine=rf(sc))
-    for fid, sc in (probes or []):
-        st.check(sc, nontrivial=nontrivial, probe=fid, judge_extra=judge_extra(sc) if callable(judge_extra) else judge_extra, refine=rf(sc))
+    for pr in (probes or []):
+        fid, sc = pr[0], pr[1]
+        # (a probe may say that the machine is not to be consulted: ('F21', scenario, False))
+        st.check(sc, nontrivial=nontrivial, probe=fid, judge_extra=judge_extra(sc) if callable(judge_extra) else judge_extra, refine=rf(sc),
+                 compare=(pr[2] if len(pr) > 2 else True))
     n = n_quick if tier == 'quick' else n_thorough
     made = []
     for i in range(n):
